@@ -78,6 +78,18 @@ class Lifecycle:
                     on_self = True
                 if on_self:
                     stack.append((t, via + (f.qualname,)))
+            # bound methods of self passed around as values (dispatch tables,
+            # callbacks) may be called later: include them
+            if len(via) < max_depth and f.params:
+                sname = f.params[0]
+                for n in own_nodes(f.node):
+                    if isinstance(n, ast.Attribute) and isinstance(n.ctx, ast.Load) and isinstance(n.value, ast.Name) and n.value.id == sname:
+                        par = f.module.parents.get(n)
+                        if isinstance(par, ast.Call) and par.func is n:
+                            continue
+                        m = self.repo.method(cls, n.attr)
+                        if m is not None and not m.is_property and not isinstance(m.node, ast.Lambda):
+                            stack.append((m, via + (f.qualname,)))
         self._closure[key] = order
         return order
 
